@@ -96,6 +96,26 @@ def literals(rng, n):
         ok.append(l)
     return ok
 
+def hard_singles(rng, n):
+    """decimal literals a hair above or below the midpoint of two adjacent single-precision numbers: converting straight to
+    single and converting through double (what both of the repository's converters do) differ by one ulp on them
+    (added after seeded change C19-sflo-fold-single-rounding)"""
+    from fractions import Fraction
+    out = []
+    for _ in range(n):
+        u = (rng.getrandbits(23)) | (rng.randint(127 - 20, 127 + 20) << 23)
+        a = struct.unpack('>f', struct.pack('>I', u))[0]; b_ = struct.unpack('>f', struct.pack('>I', u + 1))[0]
+        mid = (Fraction(a) + Fraction(b_)) / 2
+        k2 = mid.denominator.bit_length() - 1
+        if k2 == 0: dec = str(mid.numerator) + '.0'
+        else:
+            sN = str(mid.numerator * 5 ** k2).rjust(k2 + 1, '0'); dec = sN[:-k2] + '.' + sN[-k2:]
+        if rng.random() < 0.5: out.append(dec + '0000000001')
+        else:
+            # just below: decrement the last digit (it is 5 for a midpoint) and append nines
+            out.append(dec[:-1] + str(int(dec[-1]) - 1) + '9999999999')
+    return out
+
 def single_finite(l):
     try: struct.pack('>f', float(l)); return True
     except OverflowError: return False
@@ -145,7 +165,7 @@ def main():
     progs = []
     for i in range(nprog):
         lits = literals(ctx.rng, per)
-        flits = [l for l in lits if single_finite(l) and abs(float(l)) < 3.4028234e38]
+        flits = [l for l in lits if single_finite(l) and abs(float(l)) < 3.4028234e38] + hard_singles(ctx.rng, 30)
         body = ''.join('pD(%s);\n' % l for l in lits) + ''.join('pF(%s);\n' % l for l in flits)
         progs.append((i, (lits, flits), HEAD + body))
     lit_seen = set(); nlit = 0; folded_total = 0
